@@ -16,6 +16,24 @@ class UserExc(Exception):
         self.n = n
 
 
+# the exception a scripted callback raises is the user's whatever builtin family it ALSO belongs to: the library catches
+# KeyError / ValueError / AttributeError around some of its own look-ups (queues of removed models, get_state, attribute
+# resolution) and such a handler must never swallow or re-classify what a callback raised (number n -> family n % 4)
+class UserKeyExc(UserExc, KeyError):
+    pass
+
+
+class UserValueExc(UserExc, ValueError):
+    pass
+
+
+class UserAttrExc(UserExc, AttributeError):
+    pass
+
+
+USER_EXC = (UserExc, UserKeyExc, UserValueExc, UserAttrExc)
+
+
 class BaseExc(BaseException):
     def __init__(self, n):
         super(BaseExc, self).__init__(n)
@@ -40,9 +58,32 @@ def canon_exc(e):
     return (6, 0)
 
 
+_PASS_COND = (True, 1, True, 1.0, True, True)
+_BLOCK_COND = (False, 0, None, 2, 'yes', [])
+_PASS_UNLESS = (False, 0, False, 0.0, False, False)
+_BLOCK_UNLESS = (True, 1, 2, None, '', 'yes')
+
+
+def flavour(d, cid, value, salt=0):
+    """what a scripted condition callback really returns: the library compares the result with the target by `==`
+    (`conditions`: result == True, `unless`: result == False), so a Boolean outcome of the script stands for a whole
+    class of Python values — 1 / 1.0 pass like True, None / 2 / 'yes' / [] block a `conditions` entry like False (and
+    None / 2 / '' / 'yes' block an `unless` entry like True).  The model's Boolean is unchanged; every class and both
+    the sync and the async copy of `Condition.check` must treat the representatives alike."""
+    if value is not True and value is not False:
+        return value
+    slot = getattr(d, 'cb_slot', {}).get(cid)
+    h = (cid * 7 + salt) % 6
+    if slot == SLOT['conditions']:
+        return _PASS_COND[h] if value else _BLOCK_COND[h]
+    if slot == SLOT['unless']:
+        return _BLOCK_UNLESS[h] if value else _PASS_UNLESS[h]
+    return value
+
+
 def make_exc(kind, n):
     if kind == 3:
-        return UserExc(n)
+        return USER_EXC[n % 4](n)
     if kind == 4:
         return BaseExc(n)
     from transitions.core import MachineError
@@ -439,7 +480,7 @@ class FlatRun(object):
             raise
         if out[0] == 'ret':
             self.items.append(('done', cid, 0, int(bool(out[1])), 0))
-            return out[1]
+            return flavour(self.d, cid, out[1], len(self.items))
         exc = make_exc(out[1], out[2])
         self.__dict__.setdefault('scripted', []).append(exc)
         self.items.append(('done', cid, 1) + canon_exc(exc))
